@@ -1,2 +1,3 @@
 pub mod exec;
 pub mod front;
+pub mod swap;
